@@ -100,21 +100,29 @@ def ref_crossable(H: int, W: int, single_cycle: bool):
 def degree_table(repo: Repo, rep: Report) -> None:
     rep.rule("FDT-1", "per lattice point the posted constraints admit exactly: degree 0 unvisited; degree 1 or 2 (2 only, for a cycle) visited not crossing; degree 4 visited crossing, interior points only")
     em = EM.ExprWorld(repo)
+    # square, wider-than-tall and taller-than-wide frames: the border test must use the right dimension per axis
+    FDT_FRAMES = ((2, 2), (2, 3), (3, 2))
     for single_cycle in (False, True, "alias"):
-        sc = bool(single_cycle)
+      sc = bool(single_cycle)
+      bad = None
+      npts = 0
+      for H, W in FDT_FRAMES:
         try:
-            inst, fr, ret = frame_instance(repo, 2, 2, single_cycle)
+            inst, fr, ret = frame_instance(repo, H, W, single_cycle)
         except Undecided as ex:
             rep.undecide("FDT-1", str(ex))
-            continue
+            bad = ""
+            break
         except (Raised, IndexOutOfRange) as ex:
             rep.finding("FDT-1", GRAPH, "active_edges_connected_crossable", "raises", f"raises {ex}")
-            continue
-        if not (isinstance(ret, tuple) and len(ret) == 2 and all(isinstance(r, Obj) and tuple(r.attrs.get("shape", ())) == (3, 3) for r in ret)):
-            rep.finding("FDT-1", GRAPH, "active_edges_connected_crossable", "result", f"on a 2x2 frame the function returns {ret!r}; expected two 3x3 arrays (passed, crossing)")
-            continue
+            bad = ""
+            break
+        if not (isinstance(ret, tuple) and len(ret) == 2 and all(isinstance(r, Obj) and tuple(r.attrs.get("shape", ())) == (H + 1, W + 1) for r in ret)):
+            rep.finding("FDT-1", GRAPH, "active_edges_connected_crossable", "result",
+                        f"on a {H}x{W} frame the function returns {ret!r}; expected two {H + 1}x{W + 1} arrays (passed, crossing)")
+            bad = ""
+            break
         passed, cross = ret
-        H = W = 2
         hz = fr.attrs["horizontal"].attrs["data"]
         vt = fr.attrs["vertical"].attrs["data"]
 
@@ -138,8 +146,10 @@ def degree_table(repo: Repo, rep: Report) -> None:
                 return EM.ExprWorld.denote(self, v, val)  # type: ignore[arg-type]
 
         den = Den()
-        bad = None
-        for (y, x, kind) in ((0, 0, "corner"), (0, 1, "edge"), (1, 1, "interior"), (2, 1, "edge"), (1, 2, "edge")):
+        for y in range(H + 1):
+          for x in range(W + 1):
+            on_y, on_x = y in (0, H), x in (0, W)
+            kind = "corner" if on_y and on_x else "edge" if on_y or on_x else "interior"
             nb = []
             if y > 0:
                 nb.append(vt[(y - 1) * (W + 1) + x])
@@ -149,7 +159,7 @@ def degree_table(repo: Repo, rep: Report) -> None:
                 nb.append(hz[y * W + x - 1])
             if x < W:
                 nb.append(hz[y * W + x])
-            p_var, x_var = passed.attrs["data"][y * 3 + x], cross.attrs["data"][y * 3 + x]
+            p_var, x_var = passed.attrs["data"][y * (W + 1) + x], cross.attrs["data"][y * (W + 1) + x]
             ids = [v.attrs["id"] for v in nb] + [p_var.attrs["id"], x_var.attrs["id"]]
             local = [c for c, vs in cons if vs and vs <= set(ids)]
             admitted = set()
@@ -160,14 +170,17 @@ def degree_table(repo: Repo, rep: Report) -> None:
             want = {(0, False, False)} | {(d, True, False) for d in ((2,) if sc else (1, 2)) if d <= len(nb)}
             if kind == "interior":
                 want.add((4, True, True))
-            if admitted != want:
-                bad = (f"single_cycle={sc}: at the {kind} lattice point ({y},{x}) of a 2x2 frame the posted constraints admit (degree, visited, crossing) "
+            npts += 1
+            if admitted != want and bad is None:
+                bad = (f"single_cycle={sc}: at the {kind} lattice point ({y},{x}) of a {H}x{W} frame the posted constraints admit (degree, visited, crossing) "
                        f"{sorted(admitted)}; the rule is {sorted(want)}")
-                break
-        if bad:
-            rep.finding("FDT-1", GRAPH, "active_edges_connected_crossable", f"degree rule single_cycle={single_cycle}", bad)
-        else:
-            rep.ok("FDT-1", f"single_cycle={single_cycle}: corner/edge/interior points of a 2x2 frame admit exactly the degree table; (passed, crossing) 3x3 arrays returned")
+        if bad is not None:
+            break
+      if bad:
+          rep.finding("FDT-1", GRAPH, "active_edges_connected_crossable", f"degree rule single_cycle={single_cycle}", bad)
+      elif bad is None:
+          rep.ok("FDT-1", f"single_cycle={single_cycle}: all {npts} lattice points of the 2x2, 2x3 and 3x2 frames admit exactly the degree table; "
+                          "(passed, crossing) arrays of lattice shape returned", points=npts)
 
 
 def strand_semantics(repo: Repo, rep: Report) -> None:
